@@ -38,6 +38,8 @@ def structures(tier):
            ['L2', 'S1:2'], ['A', 'L1', 'S1:1'], ['L2', 'A', 'S1:1'], ['S1:1', 'L2', 'S1:1='], ['S1:1', 'Lc1', 'S1:1='],
            ['A', 'S1:1', 'Lc1', 'S1:1=']]
     att += [['U', 'S1:2'], ['A', 'U', 'S1:1', 'U', 'S1:2'], ['S1:2t'], ['A', 'S1:1t', 'S1:1']]
+    # the stack header need not be the first stack record of its window: 'h' = after the first data record, 'H' = after all
+    att += [['S2:5h'], ['S1:2H'], ['A', 'S2:6H']]
     sel = [['S0:None'], ['S1:None'], ['S2:None'], ['A', 'S2:None']]
     if tier == 'thorough':
         att += [['A', 'S1:1', 'L2', 'S1:1='], ['S1:1', 'A', 'S1:1='], ['A', 'A', 'A', 'A', 'S1:1'], ['A', 'A', 'A', 'S1:3'], ['L2', 'L2', 'S1:1'], ['A', 'A', 'S1:1', 'A', 'S1:2']]
@@ -105,6 +107,8 @@ def run(ctx, st):
                 announced.append((a[0], a[1], len(events)))
         else:
             same_frames = it.endswith('=')        # this sample repeats the previous sample's frames
+            hdr_after = {'h': 1, 'H': 99}.get(it[-1], 0)   # stack header after that many of the sample's data records
+            it = it.rstrip('hH')
             with_thd = it.endswith('t')               # thread info requested and recorded: it names a free thread
             it = it.rstrip('t')
             d, n = it.rstrip('=')[1:].split(':')
@@ -125,7 +129,10 @@ def run(ctx, st):
             events.append(start)
             if with_thd:
                 events.append(sweep.make_event(ts, [ctx.int('thd_pid%d' % si, 32), ctx.int('thd_tid%d' % si), 0, 0], TID, by_name['PERF_THD_Data'])); ts += 1
-            events.append(sweep.make_event(ts, [ctx.int('hflags%d' % si, 9), N, 0, 0], TID, by_name['PERF_STK_UHdr'])); ts += 1
+            hdr_after = min(hdr_after, d)
+            hwords = [ctx.int('hflags%d' % si, 9), N, 0, 0]
+            if hdr_after == 0:
+                events.append(sweep.make_event(ts, hwords, TID, by_name['PERF_STK_UHdr'])); ts += 1
             words = []
             for j in range(d):
                 w = [ctx.int('f%d_%d_%d' % (si, j, q)) for q in range(4)]
@@ -134,6 +141,8 @@ def run(ctx, st):
                         ctx.assume(w[q] == samples[-1]['words'][4 * j + q])
                 words += w
                 events.append(sweep.make_event(ts, w, TID, by_name['PERF_STK_UData'])); ts += 1
+                if hdr_after == j + 1:
+                    events.append(sweep.make_event(ts, hwords, TID, by_name['PERF_STK_UHdr'])); ts += 1
             events.append(sweep.make_event(ts, [flags, 0, 0, 0], TID, pe | 2)); ts += 1
             samples.append({'ts': sts, 'N': N, 'words': words, 'after': len(events), 'known': [a for a in announced]})
     # shards (they partition the input space; see structures())
